@@ -87,6 +87,33 @@ static long read_chunk_rows(const char* path, const uint8_t* buf, size_t n, int 
     return total;
 }
 
+static void on_alarm_pg(int s);
+/* the same file through the batch reader with several worker threads: -1 as soon as next() reports an error, rows otherwise.
+ * (A damaged page of ONE column must be reported although the workers of the other columns succeed.) */
+static long read_batches_rows(const char* path, const uint8_t* buf, size_t n, int mode, int verify, int nt) {
+    carquet_error_t err; memset(&err, 0, sizeof err);
+    carquet_reader_options_t ro; carquet_reader_options_init(&ro); ro.verify_checksums = verify != 0;
+    uint8_t* exact = NULL; carquet_reader_t* rd;
+    if (mode == 1) { ro.use_mmap = true; rd = carquet_reader_open(path, &ro, &err); }
+    else if (mode == 2) { exact = h_alloc(n); memcpy(exact, buf, n); rd = carquet_reader_open_buffer(exact, n, &ro, &err); }
+    else rd = carquet_reader_open(path, &ro, &err);
+    if (!rd) { free(exact); return -2; }
+    carquet_batch_reader_config_t cfg; carquet_batch_reader_config_init(&cfg); cfg.batch_size = 64; cfg.num_threads = nt; cfg.use_mmap = mode == 1;
+    carquet_batch_reader_t* br = carquet_batch_reader_create(rd, &cfg, &err);
+    long total = br ? 0 : -1;
+    for (int it = 0; br && it < 100000; it++) {
+        carquet_row_batch_t* b = NULL;
+        int st = (int)carquet_batch_reader_next(br, &b);
+        if (st == (int)CARQUET_ERROR_END_OF_DATA) { if (b) carquet_row_batch_free(b); break; }
+        if (st != 0) { total = -1; if (b) carquet_row_batch_free(b); break; }
+        if (!b) break;
+        total += (long)carquet_row_batch_num_rows(b); carquet_row_batch_free(b);
+    }
+    if (br) carquet_batch_reader_free(br);
+    carquet_reader_close(rd); free(exact);
+    return total;
+}
+
 static void on_alarm_pg(int s) { (void)s; _exit(77); }
 
 static void one_damage(hctx* h, const uint8_t* base, size_t n, const pageloc* pl, int mode, size_t startbit, const uint8_t* mask, int masklen) {
@@ -102,14 +129,21 @@ static void one_damage(hctx* h, const uint8_t* base, size_t n, const pageloc* pl
     long clean = read_chunk_rows(path, base, n, mode, 1, pl->rg, pl->col);
     f = fopen(path, "wb"); fwrite(dmg, 1, n, f); fclose(f);
     long von = read_chunk_rows(path, dmg, n, mode, 1, pl->rg, pl->col);
+    /* ... and through the batch reader, 4 worker threads, three times (the outcome must not depend on which worker ends last) */
+    /* (in a child of its own: the worker threads keep per-thread codec state that a later fork would inherit as unreachable) */
+    long vonb = 0;
+    { fflush(NULL); pid_t bp = fork();
+      if (bp == 0) { h_cpu_alarm(20, on_alarm_pg); long v = 0; for (int rep = 0; rep < 3 && v >= 0; rep++) v = read_batches_rows(path, dmg, n, mode == 3 ? 0 : mode, 1, 4); _exit(v < 0 ? 0 : 1); }
+      int bst = 0; waitpid(bp, &bst, 0);
+      vonb = WIFEXITED(bst) ? (WEXITSTATUS(bst) == 0 ? -1 : WEXITSTATUS(bst) == 1 ? 0 : -1000 - WEXITSTATUS(bst)) : -2000 - WTERMSIG(bst); }
     fflush(NULL);
     pid_t pid = fork();
     if (pid == 0) { h_cpu_alarm(10, on_alarm_pg); (void)read_chunk_rows(path, dmg, n, mode, 0, pl->rg, pl->col); exit(0); }
     int st = 0; waitpid(pid, &st, 0);
     int rc = WIFEXITED(st) ? WEXITSTATUS(st) : 1000 + WTERMSIG(st);
     int changed = memcmp(dmg, base, n) != 0;
-    fprintf(h->out, " | clean=%ld von=%ld voff_rc=%d p_clean_ok=%d p_detected=%d p_off_safe=%d\n", clean, von, rc,
-            clean >= 0, !changed || von < 0, rc == 0);
+    fprintf(h->out, " | clean=%ld von=%ld vonb=%ld voff_rc=%d p_clean_ok=%d p_detected=%d p_detected_by_batch_reader=%d p_off_safe=%d\n", clean, von, vonb, rc,
+            clean >= 0, !changed || von < 0, !changed || vonb == -1, rc == 0);
     h->n_lines++;
     free(dmg); unlink(path);
 }
@@ -201,8 +235,59 @@ static uint8_t* write_snappy_literal(hctx* h, size_t* n, int variant) {
     *n = (size_t)sz; return b;
 }
 static void damage_head_bits(hctx* h, const uint8_t* base, size_t n, size_t head);
+/* one REQUIRED INT32 column whose values repeat with a short period: the LZ4 / LZ4_RAW page is a few literals, ONE long match
+ * and the trailing literals - every bit of it is then flipped (a lengthened match must not write behind the page buffer) */
+static uint8_t* write_lz4_tail(hctx* h, size_t* n, int variant) {
+    char path[128]; snprintf(path, sizeof path, "/tmp/verif_pg_%d_z.parquet", (int)getpid());
+    static const int periods[] = { 5, 3, 7, 9 };
+    int nv = 40 + (variant * 7) % 56, per = periods[(variant / 2) % 4];
+    int32_t vals[96]; int32_t pat[9]; for (int i = 0; i < 9; i++) pat[i] = (int32_t)h_next(h);
+    for (int i = 0; i < nv; i++) vals[i] = pat[i % per];
+    carquet_error_t err; memset(&err, 0, sizeof err);
+    carquet_schema_t* sc = carquet_schema_create(&err);
+    (void)!carquet_schema_add_column(sc, "v", CARQUET_PHYSICAL_INT32, NULL, CARQUET_REPETITION_REQUIRED, 0);
+    carquet_writer_options_t wo; carquet_writer_options_init(&wo); wo.compression = variant % 2 ? CARQUET_COMPRESSION_LZ4_RAW : CARQUET_COMPRESSION_LZ4;
+    carquet_writer_t* w = carquet_writer_create(path, sc, &wo, &err);
+    (void)!carquet_writer_write_batch(w, 0, vals, nv, NULL, NULL);
+    (void)!carquet_writer_close(w); carquet_schema_free(sc);
+    FILE* f = fopen(path, "rb"); fseek(f, 0, SEEK_END); long sz = ftell(f); fseek(f, 0, SEEK_SET);
+    uint8_t* b = h_alloc((size_t)sz); if (fread(b, 1, (size_t)sz, f) != (size_t)sz) sz = 0; fclose(f); unlink(path);
+    *n = (size_t)sz; return b;
+}
+
+/* ALL single-bit modifications of the page body of one small LZ4 / LZ4_RAW file, read without verification in ONE child (buffer
+ * mode, exact-size copy): the child announces each bit on a pipe before it reads, so a crash names the bit.
+ *   pglz4 variant=<v> | bits=<flips tried> bad_bit=<first bit whose read crashed, -1 none> rc=<child status> p_off_safe=0/1 */
+static void lz4_all_bits(hctx* h, int variant) {
+    size_t n; uint8_t* base = write_lz4_tail(h, &n, variant);
+    pageloc pl[8]; int np = find_pages(base, n, pl, 8);
+    fprintf(h->out, "pglz4 variant=%d", variant); h_call(h);
+    if (np < 1 || pl[0].len == 0 || pl[0].len > 200) { fprintf(h->out, " | skipped=1 triv=1\n"); h->n_lines++; free(base); return; }
+    int fds[2]; if (pipe(fds) != 0) { fprintf(h->out, " | skipped=1 triv=1\n"); h->n_lines++; free(base); return; }
+    fflush(NULL);
+    pid_t pid = fork();
+    if (pid == 0) {
+        close(fds[0]); h_cpu_alarm(30, on_alarm_pg);
+        uint8_t* dmg = h_alloc(n);
+        for (long b = 0; b < (long)pl[0].len * 8; b++) {
+            memcpy(dmg, base, n); dmg[pl[0].off + pl[0].hs + (size_t)b / 8] ^= (uint8_t)(1u << (b % 8));
+            if (write(fds[1], &b, sizeof b) != (ssize_t)sizeof b) _exit(3);
+            (void)read_chunk_rows("/nonexistent", dmg, n, 2, 0, pl[0].rg, pl[0].col);
+        }
+        _exit(0);
+    }
+    close(fds[1]);
+    long last = -1, cur; while (read(fds[0], &cur, sizeof cur) == (ssize_t)sizeof cur) last = cur;
+    close(fds[0]);
+    int st = 0; waitpid(pid, &st, 0);
+    int rc = WIFEXITED(st) ? WEXITSTATUS(st) : 1000 + WTERMSIG(st);
+    fprintf(h->out, " | bits=%ld bad_bit=%ld rc=%d p_off_safe=%d\n", (long)pl[0].len * 8, rc == 0 ? -1 : last, rc, rc == 0);
+    h->n_lines++; free(base);
+}
 
 static void gen_pagecrc(hctx* h) {
+    for (int v = 0; v < (h->thorough ? 64 : 24); v++) lz4_all_bits(h, v);
+    for (int t = 0; t < (h->thorough ? 8 : 3); t++) { size_t n; uint8_t* b = write_lz4_tail(h, &n, t + (int)h_below(h, 8)); g_pg_codec = 5; damage_head_bits(h, b, n, 80); g_pg_codec = 0; free(b); }
     /* every single bit of the first bytes of a page body: the codec's own framing (length preamble, first element tag) */
     for (int t = 0; t < 3; t++) { size_t n; uint8_t* b = write_snappy_literal(h, &n, t); g_pg_codec = 1; damage_head_bits(h, b, n, 3); g_pg_codec = 0; free(b); }
 
